@@ -138,6 +138,7 @@ func (d *Data) MergeLabels(v dvid.VersionID, op labels.MergeOp, info dvid.ModInf
 		return
 	}
 
+	dvid.VerifPoint("labelmap.MergeLabels", op.Target)
 	supervoxels := mergeIdx.GetSupervoxels()
 	if err = addMergeToMapping(d, v, mutID, op.Target, supervoxels); err != nil {
 		return
